@@ -13,25 +13,25 @@ DESC = {
  "C03": ("TLC enumerates the models of the complete compiled formula: DPLL over the trial-sequence variables as a state machine (MCModels over Cnf.tla) and, for every consistent assignment of them, a count of the extensions to the auxiliary variables (must be 1); the models are decoded by the library and checked against Design.tla in both directions (model => valid sequence, valid sequence => model, multiplicity = Mult).", "6/C03"),
  "C05": ("The complete tree of random draws of RandomGen's first candidate is explored with the real sampler and a scripted random source; RandomLoop.tla replays every path (well-formed tree) and judges the accepted leaves: exactly Mult(seq) accepted candidates per valid sequence, equal probability per solution; accepted set = valid set by MCTrace/MCEnum.", "6/C05"),
  "C04": ("Trace validation of RandomGen output (class and instance, several requested counts) against the Design specification, including designs of 9-24 trials; in addition RandomGen(1) and RandomGen(2) output is validated against Design!VerdictErr (the documented acceptable-error relaxation).", "6/C04"),
- "C06": ("RandomGen exhausted under a watchdog: set equality with the specification's valid set (MCTrace + MCEnum), distinctness, and the reported solution count for rejection-free single-round designs.", "6/C06"),
+ "C06": ("RandomGen exhausted under a watchdog: set equality with the specification's valid set (MCTrace + MCEnum), distinctness, the reported solution count for rejection-free single-round designs, and the size of RandomGen's key space against the valid count established by IterateSATGen + MCEnum for rejection-free designs (a wrong count makes it stop early or never).", "6/C06"),
  "C07": ("Both samplers exhausted; TLC (MCAgree) compares the two sets and prints every sequence that is in only one of them; independent of the Design specification.", "6/C07"),
  "C08": ("Every design the constructors accept is synthesized with IterateSATGen, RandomGen, CMSGen and UniGen in crash-tolerant worker processes; an exception (or a dying process) is a violation unless documented.", "6/C08"),
  "C09": ("Two phases: exhaust to establish (via MCTrace+MCEnum; the count proved for one sampler is the count every sampler has to deliver) how many solutions exist, then request 0, 1, avail-1, avail, avail+5 sequences and compare counts with min(requested, available); distinctness up to the specification's multiplicity Mult (weighted uncrossed levels).", "6/C09"),
  "C10": ("Clause lists recorded from combine_cnf_with_requests for every (relation, n, k) up to the bound are judged by TLC: MCGadget enumerates all 2^n assignments and a DPLL counter written in TLA+ (Cnf.tla) decides whether exactly one / no extension to the auxiliary variables exists, against the arithmetic definition of the relation.", "6/C10"),
  "C11": ("Formulas (systematic depth<=1, seeded random depth 2-3 with shared subformulas) are converted by the three real functions; TLC evaluates the formula (Eval) and counts the CNF's extensions for every assignment of the original variables; fresh-variable ranges are checked.", "6/C11"),
- "C13": ("For every parameter tuple up to the bound each unranking function is called on all indices 0..N-1; the recorded results are replayed into the enumerator machine of Combinatorics.tla, where the arrangement sets are defined declaratively: every result is an arrangement, none repeats, none is missing, N equals the cardinality.", "6/C13"),
+ "C13": ("For every parameter tuple up to the bound each unranking function is called on all indices 0..N-1; the recorded results are replayed into the enumerator machine of Combinatorics.tla, where the arrangement sets are defined declaratively: every result is an arrangement, none repeats, none is missing, N equals the cardinality; one PermutationMemo is also driven through histories of different prefix lengths (descending, ascending, zigzag, interleaved).", "6/C13"),
  "C23": ("Weighted designs: quota scaling for crossed factors (CrossOK) and copies-as-distinct-solutions for uncrossed non-derived factors (Design!Mult): both samplers exhausted, each valid name-level sequence must be returned exactly Mult times.", "6/C23"),
  "C27": ("Bytes written for the solvers, clause lists recovered by the library's two parsers, parsed solver output and the file before/after the blocking clause are judged by byte-level DIMACS readers written in TLA+ (Text.tla, MCText).", "6/C27"),
  "C28": ("OPB bytes are parsed by Text!ParseOpb and, for all assignments of the variables, pseudo-Boolean satisfaction is compared with the meaning of the clauses and cardinality requests; the appended blocking constraint must exclude exactly the previous solution.", "6/C28"),
  "C12": ("Adder and population-count clause builders for all widths up to the bound: for every input assignment TLC's DPLL finds the unique extension and compares the output bits with the sum (sticky top bit when saturating).", "6/C12"),
- "C17": ("Specification -> code: for every design, sequences returned by the library and their well-formed perturbations (cell changes, swaps, truncation, extension) are labelled by TLC (MCTrace verdict) and by sample_mismatch_experiment; the labels must coincide in both directions.", "6/C17"),
+ "C17": ("Specification -> code: for every design, sequences returned by the library and their well-formed perturbations (cell changes, swaps, truncation, extension) are labelled by TLC (MCTrace verdict) and by sample_mismatch_experiment; the labels must coincide in both directions; the same comparison on designs of 9-24 trials with candidates that TLC simulated from the specification.", "6/C17"),
  "C24": ("Each documented law instance is built twice from fresh objects; in Blocks.tla both sides are ONE definition (MultiCrossBlock, Repeat and CrossBlock are defined through Merge), so both exhausted sets are validated/enumerated against the same meaning, and TLC (MCAgree) also compares the two recorded sets directly.", "6/C24"),
  "C25": ("Nest designs (outer/inner free factors, constraints at the three places, nested Nest, outer MultiCrossBlock): exhausted sets of IterateSATGen and RandomGen against rule R8 of Blocks.tla/Design.tla (sustain groups, group-level crossing, stretched outer constraints) by trace validation and exhaustive enumeration.", "6/C25"),
  "C26": ("The same constraint placed in the repeated/merged/nested block and on the combinator for every constraint kind, with preambles and trailing partial repetitions: exhausted sets of both samplers against the repetition windows of rule R6 (Blocks!Windows) by trace validation and exhaustive enumeration.", "6/C26"),
  "C14": ("The table (trial, factor, level) -> variable recorded from the real block is judged by VarMap.tla against the applicability rule of Design.tla (bijection onto 1..variables_per_sample, auxiliary variables above); random one-hot assignments are encoded with the table and Gen.decode must return the chosen levels.", "6/C14"),
  "C15": ("Truth tables covering total, ambiguous and partial derivations (plus ElseLevel, start before/after the default, stride): Blocks!Ambiguous must coincide with the constructor's refusal, Blocks!Partial with an empty result, total ones go through enumeration + trace validation (clauses levels / derived).", "6/C15"),
- "C19": ("TLC generates every call sequence of the API alphabet up to the bound (SessionGen.tla); each is executed on fresh blocks and the recorded events are trace-validated against Session.tla (no call changes the block's abstract state; every synthesis returns with the columns of the first); synthesized sequences by MCTrace.", "6/C19"),
- "C20": ("Results of experiments_to_tuples/dicts and the bytes of save_experiments_csv for synthesized and arbitrary experiment lists are judged cell by cell by Output.tla (MCOutput); keys outside the user-declared factors are reported.", "6/C20"),
+ "C19": ("TLC generates every call sequence of the API alphabet up to the bound (SessionGen.tla); each is executed on fresh blocks and the recorded events are trace-validated against Session.tla (no call changes the block's abstract state; every synthesis returns with the columns of the first and with min(requested, available) sequences, the availability being the size of the valid set proved on a fresh block); synthesized sequences by MCTrace.", "6/C19"),
+ "C20": ("Results of experiments_to_tuples/dicts and the bytes of save_experiments_csv for synthesized and arbitrary experiment lists are judged cell by cell by Output.tla (MCOutput); keys outside the user-declared factors are reported; lists with experiments of different lengths; in addition the bytes print_experiments writes are parsed and compared (MCOutput!JudgePrint).", "6/C20"),
  "C21": ("Captured stdout of tabulate_experiments is parsed byte-wise in TLA+ and every row compared with Output!Freq and the percentage for many factor / trial selections.", "6/C21"),
  "C22": ("Recording CustomDistributions log every call; Continuous.tla replays them (call order, inputs from same-trial dependencies and windows with NaN rules, resampling, returned columns, constraints); built-in distributions: one value per trial and constraints; discrete part by MCTrace.", "6/C22"),
  "C18": ("TLC generates every construction history over block templates that share factor objects, constraint objects, the user's constraint list and the constructors' default list (BuildGen.tla); the last block of each history is built on the shared objects and judged against Design.tla's meaning of the same block built from fresh objects: exhausted sets of both samplers and mismatch verdicts on TLC-labelled candidates.", "6/C18"),
